@@ -250,6 +250,21 @@ def witnesses(tier="quick", seed=0):
             parts.insert(pos, ct)
             add("tryfrom_with_two_%s_%s_%s_%d" % (a_.split(" ")[0], b_.split(" ")[0], kind, pos), "container try_from with rename_all/tag/deny_unknown_fields", "container",
                 item(kind, [["error = JsonError"]] + [[x] for x in parts]), item(kind, [["error = JsonError"], [ct]]))
+    # ---------------------------------------------------------------- the helper attribute written without an argument list
+    # (`#[deserr]`, `#[deserr = ".."]`): not something the derive can honour - it must say so, not skip it
+    for form, nm in (("#[deserr]", "bare"), ('#[deserr = "x"]', "namevalue")):
+        add("malformed_%s_container" % nm, "malformed attribute syntax", "container",
+            "#[derive(Deserr)]\n%s\nstruct T { a: u8 }" % form, "#[derive(Deserr)]\nstruct T { a: u8 }")
+        add("malformed_%s_container_beside" % nm, "malformed attribute syntax", "container",
+            "#[derive(Deserr)]\n%s\n#[deserr(error = JsonError)]\nstruct T { a: u8 }" % form, "#[derive(Deserr)]\n#[deserr(error = JsonError)]\nstruct T { a: u8 }")
+        add("malformed_%s_field" % nm, "malformed attribute syntax", "field",
+            "#[derive(Deserr)]\nstruct T {\n    %s\n    a: u8,\n}" % form, "#[derive(Deserr)]\nstruct T {\n    a: u8,\n}")
+        add("malformed_%s_field_beside" % nm, "malformed attribute syntax", "field",
+            "#[derive(Deserr)]\nstruct T {\n    #[deserr(default)]\n    %s\n    a: u8,\n}" % form, "#[derive(Deserr)]\nstruct T {\n    #[deserr(default)]\n    a: u8,\n}")
+        add("malformed_%s_variant" % nm, "malformed attribute syntax", "variant",
+            '#[derive(Deserr)]\n#[deserr(tag = "t")]\nenum T {\n    %s\n    Aa,\n    Bb { a: u8 },\n}' % form, '#[derive(Deserr)]\n#[deserr(tag = "t")]\nenum T {\n    Aa,\n    Bb { a: u8 },\n}')
+        add("malformed_%s_variant_field" % nm, "malformed attribute syntax", "field",
+            '#[derive(Deserr)]\n#[deserr(tag = "t")]\nenum T {\n    Aa,\n    Bb {\n        %s\n        a: u8,\n    },\n}' % form, '#[derive(Deserr)]\n#[deserr(tag = "t")]\nenum T {\n    Aa,\n    Bb { a: u8 },\n}')
     if tier == "thorough":
         ws += generated(seed, 500)
     else:
